@@ -3,7 +3,7 @@
 CAPINF = 1073741824
 
 
-def dec_cfg(tokens, first, maxtok, invs, caps="{1073741824}", fallback="kmp", width=0, paylen=0, props=(), spec="Spec"):
+def dec_cfg(tokens, first, maxtok, invs, caps="{1073741824}", fallback="kmp", width=0, paylen=0, props=(), spec="Spec", overrides=()):
     """cfg text for MC_Decoder.tla; maxtok may be a function of the tier"""
     def mk(tier):
         mt = maxtok(tier) if callable(maxtok) else maxtok
@@ -13,6 +13,7 @@ def dec_cfg(tokens, first, maxtok, invs, caps="{1073741824}", fallback="kmp", wi
              '  MatcherFallback = "%s"' % fallback, "  DiscWidth = %d" % width,
              "  Tokens <- %s" % tokens, "  FirstTokens <- %s" % first,
              "  MaxTok = %d" % mt, "  Caps %s" % (("= " + cp) if cp.startswith("{") else ("<- " + cp)), "  PayLen = %d" % pl]
+        t += ["  %s" % o for o in overrides]      # definition overrides, e.g. "RealignStrict <- RealignLoose"
         t += ["INVARIANT %s" % i for i in invs]
         t += ["PROPERTY %s" % p for p in props]
         t += ["CHECK_DEADLOCK FALSE"]
@@ -52,7 +53,7 @@ MC = {
     "sound_adv": {"module": "MC_Decoder",
                   "cfg": dec_cfg("TokADV", "FirstADV", q(5, 6), ["TypeOK", "Sound"])},
     "sound_rawcrc": {"module": "MC_Decoder",
-                     "cfg": dec_cfg("TokRAWCRC", "FirstRAWCRC", q(8, 9), ["TypeOK", "Sound", "Tiles"])},
+                     "cfg": dec_cfg("TokRAWCRC", "FirstRAWCRC", q(9, 10), ["TypeOK", "Sound", "Tiles"])},
     "tiles_adv": {"module": "MC_Decoder",
                   "cfg": dec_cfg("TokADV", "FirstADV", q(4, 5), ["TypeOK", "Tiles"])},
     "total_hist": {"module": "MC_Decoder",
@@ -121,6 +122,8 @@ MC = {
     # negative controls: the as-found constants must break the corresponding invariant
     "neg_matcher_drop": {"module": "MC_Decoder", "expect": "MatcherExact",
                          "cfg": dec_cfg("TokNOISE", "FirstNOISE", 6, ["MatcherExact"], fallback="drop")},
+    "neg_realign_loose": {"module": "MC_Decoder", "expect": "Sound",
+                          "cfg": dec_cfg("TokRAWCRC", "FirstRAWCRC", 9, ["Sound"], overrides=["RealignStrict <- RealignLoose"])},
     "neg_rawcrc_accepts": {"module": "MC_Decoder", "expect": "CrcTokenNeverAccepted",
                            "cfg": dec_cfg("TokRAWCRC", "FirstRAWCRC", 7, ["CrcTokenNeverAccepted"])},
     "neg_resync_drop": {"module": "MC_Decoder", "expect": "Resync",
